@@ -35,7 +35,13 @@ func verifC13() {
 		return []*protos.TxInput{vkit.In([]byte(id), off, from, a)}
 	}
 	var fam []c13tx
-	switch vrt.Choice("family", 5) {
+	switch vrt.Choice("family", 6) {
+	case 5: // a reader of an absent key, the creator of that key, and the creator of another absent key
+		fam = []c13tx{
+			{vkit.WithKey(vkit.Tx("r1", nil, nil), "bk", "k1", nil, 0, nil), nil, []int{1}},
+			{vkit.WithKey(vkit.Tx("w1", nil, nil), "bk", "k1", nil, 0, []byte("one")), nil, nil},
+			{vkit.WithKey(vkit.Tx("w2", nil, nil), "bk", "k2", nil, 0, vrt.Bytes("v", 1)), nil, nil},
+		}
 	case 0: // dependency chain
 		fam = []c13tx{
 			{vkit.Tx("p1", in(string(root), 0, "A", nine), []*protos.TxOutput{vkit.Out("C", x, 0), vkit.Out("A", rest, 0)}), nil, nil},
